@@ -125,6 +125,7 @@ static void stateLaws(vf::Src &s, vf::Ctx &c)
     o.ctx = &c;
     o.allowUnboundedTime = true;
     Desc d = genSpace(s, o);
+    lateGrowth(d, c);
     setupOrSkip(d, c);
     auto &sp = d.space;
     StateHolder h(sp);
@@ -378,6 +379,8 @@ static void stateStorage(vf::Src &s, vf::Ctx &c)
         d.space = sp;
         c.count("state-storage:with-zero-length-user-subspace");
     }
+    else
+        lateGrowth(d, c);
     setupOrSkip(d, c);
     auto &sp = d.space;
     StateHolder h(sp);
@@ -457,6 +460,7 @@ static void plannerData(vf::Src &s, vf::Ctx &c)
     SpaceOpts o;
     o.ctx = &c;
     Desc d = genSpace(s, o);
+    lateGrowth(d, c);
     setupOrSkip(d, c);
     auto &sp = d.space;
     bool control = s.chance(96);
